@@ -366,13 +366,11 @@ func (dq *Deque[T]) addAfter(value T, after *element[T]) error {
 	it.prev.next = it
 	it.next.prev = it
 
-	if after.isRoot() {
-		dq.nfront.Signal()
-	}
-	if after.prev.isRoot() {
-		dq.nback.Signal()
-	}
-	dq.updates.Signal()
+	// wake every waiter: each re-checks its own condition, and several
+	// items may be pushed before any of them runs.
+	dq.nfront.Broadcast()
+	dq.nback.Broadcast()
+	dq.updates.Broadcast()
 	return nil
 }
 
